@@ -218,6 +218,18 @@ def run_cli(shard, ctx, origin_ref):
             if any(a[0] == b[0] for a, b in zip(plain["scaffolds"], plain["scaffolds"][1:])):
                 continue
             (scratch / "x.tpf").write_text(__import__("vf.ref.tpf_ref", fromlist=["format"]).format(plain))
+            # AGP written to STDOUT while the overlap QC reports (to STDERR) about a duplicated fragment
+            dup = {"header": [], "scaffolds": [[n, list(rows)] for n, rows in plain["scaffolds"]]}
+            fr = next((r_ for _, rows in dup["scaffolds"] for r_ in rows if r_[0] == "F"), None)
+            if fr is not None:
+                dup["scaffolds"][-1][1].append(list(fr))
+                (scratch / "q.tpf").write_text(__import__("vf.ref.tpf_ref", fromlist=["format"]).format(dup))
+                rq = cli_runs.run_asm_format([scratch / "q.tpf", "--qc-overlaps"])
+                if rq["exit_code"] == 0:
+                    probs, _ = agp_ref.validate(rq["stdout"], {s_[0]: scaffold_len(s_) for s_ in dup["scaffolds"]})
+                    ctx.count("cli:asm-format-stdout-with-qc")
+                    for sig, msg in probs[:2]:
+                        ctx.violation(f"asm-format-stdout:{sig}", f"{msg}\n{rq['stdout'][:400]}", {"kind": "scaffolds", "scaffolds": dup["scaffolds"]})
             r = cli_runs.run_asm_format([scratch / "x.tpf", "-o", scratch / "x.out.agp"])
             if r["exit_code"] == 0:
                 probs, _ = agp_ref.validate((scratch / "x.out.agp").read_text(), {s[0]: scaffold_len(s) for s in plain["scaffolds"]})
@@ -302,6 +314,7 @@ def gates(c, tier):
         "pretext-to-asm:agp-texts": 50,
         "cli:agp-with-fasta": 10,
         "cli:small-stream-buffer": 10,
+        "cli:asm-format-stdout-with-qc": 10,
         "fault:fasta-write-failed": 5,
     }
     return [f"{k}>={v} (got {c.get(k, 0)})" for k, v in need.items() if c.get(k, 0) < v]
